@@ -35,6 +35,7 @@ string canon_err (mixed e) {
   s = e;
   if (strlen (s) && s[strlen (s) - 1] == '\n') s = s[0..strlen (s) - 2];
   if (s[0..13] == "*Bad argument ") return "*Bad_argument";
+  if (s[0..29] == "*master::valid_object() denied") return "*valid_object_denied";    // (the text names the file)
   return replace_string (s, " ", "_");
 }
 
@@ -157,7 +158,8 @@ string do_op (string s) {
     else e = catch (tell_room (w[1], ""));
     o = find_object (w[1]);
     // "could not find the object" of these efuns = the 0 of load_object; the errors of load_object itself stay errors
-    if (e && canon_err (e) != "*Can't_load_objects_when_no_effective_user." && canon_err (e) != "*policy_error") e = 0;
+    if (e && canon_err (e) != "*Can't_load_objects_when_no_effective_user." && canon_err (e) != "*policy_error" &&
+        canon_err (e) != "*valid_object_denied") e = 0;
     if (!e && o) {
       if (!stringp (o->my_oid ())) o->announce ();
       r = o->my_oid ();
